@@ -461,7 +461,7 @@ DurableOf(tb, gh) ==
 
 NeverFails == ~FailedOf(tab)
 
-(* TODO-KNOWN-FINDING (spec/store/NOTES.md C24-F1, C24-F2): the two ways the pinned code is known to    *)
+(* KNOWN-FINDING (tolerated only through ctx.known_finding in the check) (spec/store/NOTES.md C24-F1, C24-F2): the two ways the pinned code is known to    *)
 (* refuse to reopen.  F1: more items hidden than stored (virtualTail written without fsync by           *)
 (* TruncateTail survives while the unflushed index entries do not) - newTable fails with EOF; or, with  *)
 (* the loss in another table, the common head falls below a table's tail and Freezer.repair fails with *)
